@@ -153,9 +153,14 @@ func c13Analyse(r *simcore.Run, all []*c13Tx, observed [][]string, final [][]str
 			why := ""
 			for _, st := range states {
 				base := c13Parse(st)
-				if why = c13Replay(base, t, false); why == "" {
+				w := c13Replay(base, t, false)
+				if w == "" {
 					ok = true
 					break
+				}
+				// report the mismatch against the state that explains most of the program
+				if why == "" || c13StmtIndex(strings.TrimPrefix(w, "savepoint: ")) > c13StmtIndex(strings.TrimPrefix(why, "savepoint: ")) {
+					why = w
 				}
 			}
 			if !ok && !c13HasSavepointRollback(t) && !tainted {
@@ -262,7 +267,13 @@ func c13ReplayInner(state map[int]int, t *c13Tx, apply bool) string {
 	total := 0
 	for i, st := range t.Stmts {
 		if st.Err != "" && st.Kind != "rb" {
-			// a failed statement ends the transaction (the harness cancels it)
+			// a failed statement ends the transaction (the harness cancels it); a
+			// duplicate-key failure must be justified by the transaction's own view
+			if st.Kind == "ins" && strings.Contains(st.Err, "key already exists") {
+				if _, exists := work[st.ID]; !exists {
+					return fmt.Sprintf("statement %d (%s) failed with %q although no row with that key exists in the transaction's view (snapshot plus own earlier statements)", i, st.SQL, st.Err)
+				}
+			}
 			continue
 		}
 		switch st.Kind {
